@@ -47,7 +47,7 @@ func init() {
 			}
 		}
 	}
-	traversalCorpus = append(traversalCorpus, "sub\\..\\..\\x", "a\\..\\..\\top.txt", "a\\../..\\x", "sub/..\\..\\x", "x\\..\\..\\sibling\\file")
+	traversalCorpus = append(traversalCorpus, "x//../../x", ".//../x", "sub/dir//..//../../../top.txt", "a///../../../x", ".//..//x", "a/b//../../../sibling/file", "sub\\..\\..\\x", "a\\..\\..\\top.txt", "a\\../..\\x", "sub/..\\..\\x", "x\\..\\..\\sibling\\file")
 }
 
 type c15Case struct {
